@@ -16,7 +16,7 @@ from ..models.eqalgebra import EqModel, to_fraction, is_pos_int
 
 PROPERTY = "C11"
 LEVEL = "exploration"
-QUICK_RUNS = 4000
+QUICK_RUNS = 16000
 THOROUGH_BUDGET_S = 1500
 THOROUGH_BATCH = 8000
 CROSS_RUNS_QUICK = 120
